@@ -10,7 +10,7 @@ def FPc.inCS : FPc → Bool
 
 /-- the path this thread has established to be on `sys.path` -/
 def FPc.added : FPc → Option Nat
-  | .fRelease p | .fKnown p => some p
+  | .fRelease p | .fKnown p | .fDiscard p => some p
   | _ => none
 
 /-- the path this thread has seen to exist -/
@@ -30,14 +30,22 @@ def FPc.absent : FPc → Option Nat
 @[simp] theorem f_setThread_known (st : FState) (t : Tid) (th : FThread) : (st.setThread t th).known = st.known := rfl
 @[simp] theorem f_setThread_missing (st : FState) (t : Tid) (th : FThread) : (st.setThread t th).missing = st.missing := rfl
 
-structure FInv (ex : Nat → Bool) (base : List Nat) (st : FState) : Prop where
+/-- the inductive invariant. It does not mention the file system: it is kept by a step under ANY exists() oracle
+    (`fInv_step`), so it holds along runs during which directories appear and disappear (`fInv_runW`). -/
+structure FInv (base : List Nat) (st : FState) : Prop where
   mutex : ∀ t, (st.threads t).pc.inCS = true ↔ st.lock = some t
   fresh : ∀ t p, (st.threads t).pc = .fAppend p → p ∉ st.sysPath
   nodup : st.sysPath.Nodup
   added : ∀ t p, (st.threads t).pc.added = some p → p ∈ st.sysPath
-  absent : ∀ t p, (st.threads t).pc.absent = some p → ex p = false
-  known : ∀ p ∈ st.known, ex p = true → p ∈ st.sysPath
-  existing : ∀ t p, (st.threads t).pc.existing = some p → ex p = true
+  /-- what the unlocked early return relies on: "known and not missing" is true only of paths on `sys.path` — at
+      every moment, also between two set operations of another thread (a directory that was missing at an earlier
+      call and exists now is known AND missing) -/
+  known : ∀ p ∈ st.known, p ∉ st.missing → p ∈ st.sysPath
+  /-- a thread about to do `_known_dirs.add` in the not-exists branch has done `_missing_dirs.add`; if the mark
+      is gone, a thread that appended has discarded it -/
+  addk : ∀ t p, (st.threads t).pc = .fAddK p → p ∈ st.missing ∨ p ∈ st.sysPath
+  /-- a thread that has seen `path in _known_dirs` (nothing ever leaves `_known_dirs`) -/
+  chk : ∀ t p, (st.threads t).pc = .fChkM p → p ∈ st.known
   keeps : base <+: st.sysPath
 
 theorem f_mutex_step (ex : Nat → Bool) (st : FState) (t : Tid)
@@ -104,9 +112,9 @@ theorem f_absent_step (ex : Nat → Bool) (st : FState) (t : Tid)
 
 theorem f_known_step (ex : Nat → Bool) (st : FState) (t : Tid)
     (ha : ∀ p, (st.threads t).pc.added = some p → p ∈ st.sysPath)
-    (hb : ∀ p, (st.threads t).pc.absent = some p → ex p = false)
-    (h : ∀ p ∈ st.known, ex p = true → p ∈ st.sysPath) :
-    ∀ p ∈ (fStep ex st t).known, ex p = true → p ∈ (fStep ex st t).sysPath := by
+    (hb : ∀ p, (st.threads t).pc = .fAddK p → p ∈ st.missing ∨ p ∈ st.sysPath)
+    (h : ∀ p ∈ st.known, p ∉ st.missing → p ∈ st.sysPath) :
+    ∀ p ∈ (fStep ex st t).known, p ∉ (fStep ex st t).missing → p ∈ (fStep ex st t).sysPath := by
   intro p
   have hp := h p
   have hap := ha p
@@ -114,9 +122,48 @@ theorem f_known_step (ex : Nat → Bool) (st : FState) (t : Tid)
   cases hpc : (st.threads t).pc <;> simp only [fStep, hpc]
   all_goals (try split)
   all_goals (try split)
-  all_goals (simp_all [FPc.added, FPc.absent])
+  all_goals (simp_all [FPc.added])
   all_goals (try (rintro (e | e) <;> simp_all; done))
   all_goals (try (intro e1 e2; exact .inl (hp e1 e2)))
+  all_goals (try (rintro (e | e) e2 <;> simp_all; done))
+  all_goals (try (intro e1 e2
+                  by_cases hq : p ∈ st.missing
+                  · exact hap (e2 hq).symm
+                  · exact h p e1 hq))
+
+theorem f_addk_step (ex : Nat → Bool) (st : FState) (t : Tid)
+    (ha : ∀ p, (st.threads t).pc.added = some p → p ∈ st.sysPath)
+    (h : ∀ t p, (st.threads t).pc = .fAddK p → p ∈ st.missing ∨ p ∈ st.sysPath) :
+    ∀ u p, ((fStep ex st t).threads u).pc = .fAddK p →
+      p ∈ (fStep ex st t).missing ∨ p ∈ (fStep ex st t).sysPath := by
+  intro u p
+  have hu := h u p
+  have hap := ha p
+  cases hpc : (st.threads t).pc <;> simp only [fStep, hpc]
+  all_goals (try split)
+  all_goals (try split)
+  all_goals (by_cases hut : u = t <;> simp_all [FPc.added])
+  all_goals (try (intro e; rcases hu e with h1 | h1 <;> simp_all; done))
+  all_goals (try (intro e
+                  rcases hu e with h1 | h1
+                  · rename_i q
+                    by_cases hq : p = q
+                    · subst hq; exact .inr ha
+                    · exact .inl ⟨h1, hq⟩
+                  · exact .inr h1))
+
+theorem f_chk_step (ex : Nat → Bool) (st : FState) (t : Tid)
+    (h : ∀ t p, (st.threads t).pc = .fChkM p → p ∈ st.known) :
+    ∀ u p, ((fStep ex st t).threads u).pc = .fChkM p → p ∈ (fStep ex st t).known := by
+  intro u p
+  have hu := h u p
+  have ht := h t p
+  cases hpc : (st.threads t).pc <;> simp only [fStep, hpc]
+  all_goals (try split)
+  all_goals (try split)
+  all_goals (by_cases hut : u = t <;> simp_all)
+  all_goals (try (intro e; simp_all; done))
+  all_goals (try (intro e; exact .inr (hu e)))
 
 theorem f_existing_step (ex : Nat → Bool) (st : FState) (t : Tid)
     (h : ∀ t p, (st.threads t).pc.existing = some p → ex p = true) :
@@ -137,21 +184,80 @@ theorem f_keeps_step (ex : Nat → Bool) (base : List Nat) (st : FState) (t : Ti
   all_goals (try split)
   all_goals (first | exact h | exact List.IsPrefix.trans h (List.prefix_append _ _))
 
-theorem fInv_step (ex : Nat → Bool) (base : List Nat) (st : FState) (t : Tid) (h : FInv ex base st) :
-    FInv ex base (fStep ex st t) :=
+theorem fInv_step (ex : Nat → Bool) (base : List Nat) (st : FState) (t : Tid) (h : FInv base st) :
+    FInv base (fStep ex st t) :=
   ⟨f_mutex_step ex st t h.mutex, f_fresh_step ex st t h.mutex h.fresh,
-   f_nodup_step ex st t (h.fresh t) h.nodup, f_added_step ex st t h.added, f_absent_step ex st t h.absent,
-   f_known_step ex st t (h.added t) (h.absent t) h.known, f_existing_step ex st t h.existing,
-   f_keeps_step ex base st t h.keeps⟩
+   f_nodup_step ex st t (h.fresh t) h.nodup, f_added_step ex st t h.added,
+   f_known_step ex st t (h.added t) (h.addk t) h.known, f_addk_step ex st t (h.added t) h.addk,
+   f_chk_step ex st t h.chk, f_keeps_step ex base st t h.keeps⟩
 
-theorem fInv_init (ex : Nat → Bool) (base : List Nat) (prog : Tid → List Nat) (hn : base.Nodup) :
-    FInv ex base (fInit base prog) := by
-  refine ⟨?_, ?_, hn, ?_, ?_, ?_, ?_, ?_⟩ <;> simp [fInit, FPc.inCS, FPc.added, FPc.existing, FPc.absent]
+theorem fInv_init (base : List Nat) (prog : Tid → List Nat) (hn : base.Nodup) :
+    FInv base (fInit base prog) := by
+  refine ⟨?_, ?_, hn, ?_, ?_, ?_, ?_, ?_⟩ <;> simp [fInit, FPc.inCS, FPc.added]
+
+/-- a process with a history (`fInitH`): all that is asked of `_known_dirs` / `_missing_dirs` as earlier calls left
+    them is what those calls guarantee — a known directory that is not marked missing is on `sys.path`.
+    A directory that was missing then and exists now (known AND missing, not on `sys.path`) is inside. -/
+theorem fInv_initH (base known missing : List Nat) (prog : Tid → List Nat) (hn : base.Nodup)
+    (hk : ∀ p ∈ known, p ∉ missing → p ∈ base) :
+    FInv base (fInitH base known missing prog) := by
+  refine ⟨?_, ?_, hn, ?_, hk, ?_, ?_, ?_⟩ <;> simp [fInitH, FPc.inCS, FPc.added]
+
+/-- `_missing_dirs` holds only directories that do not exist — true of a process WITHOUT a history while the file
+    system stands still (not of `fInitH` in general) -/
+theorem f_missing_step (ex : Nat → Bool) (st : FState) (t : Tid)
+    (hb : ∀ p, (st.threads t).pc.absent = some p → ex p = false)
+    (h : ∀ p ∈ st.missing, ex p = false) : ∀ p ∈ (fStep ex st t).missing, ex p = false := by
+  intro p
+  have hp := h p
+  have hbp := hb p
+  cases hpc : (st.threads t).pc <;> simp only [fStep, hpc]
+  all_goals (try split)
+  all_goals (try split)
+  all_goals (simp_all [FPc.absent])
+  all_goals (try (rintro (e | e) <;> simp_all; done))
+  all_goals (try (intro e1 e2; exact hp e1))
+
+/-- while the file system stands still: a thread in the not-exists branch has seen the directory missing -/
+theorem f_absent_run (ex : Nat → Bool) (sched : List Tid) :
+    ∀ st, (∀ t p, (st.threads t).pc.absent = some p → ex p = false) →
+      ∀ t p, ((fRun ex st sched).threads t).pc.absent = some p → ex p = false := by
+  induction sched with
+  | nil => intro st h; exact h
+  | cons t ts ih => intro st h; exact ih _ (f_absent_step ex st t h)
+
+theorem f_missing_run (ex : Nat → Bool) (sched : List Tid) :
+    ∀ st, (∀ t p, (st.threads t).pc.absent = some p → ex p = false) → (∀ p ∈ st.missing, ex p = false) →
+      ∀ p ∈ (fRun ex st sched).missing, ex p = false := by
+  induction sched with
+  | nil => intro st _ h; exact h
+  | cons t ts ih => intro st hb h; exact ih _ (f_absent_step ex st t hb) (f_missing_step ex st t (hb t) h)
+
+/-- THE RETURN GUARANTEE, one step, whatever the file system does: the step by which thread `t` RETURNS from
+    `add_sys_path(p)` (its pc goes from inside the call to idle) by the unlocked early return or after the locked
+    append — i.e. not from the not-exists branch, where its own exists() test said no — : `p` is on `sys.path`. -/
+theorem f_return_step (ex : Nat → Bool) (base : List Nat) (st : FState) (t : Tid) (h : FInv base st) (p : Nat)
+    (hin : (st.threads t).pc.path = some p) (hnot : (st.threads t).pc.absent = none)
+    (hret : ((fStep ex st t).threads t).pc = .fIdle) : p ∈ (fStep ex st t).sysPath := by
+  have hk := h.known p
+  have hc := h.chk t p
+  have ha := h.added t p
+  revert hret
+  cases hpc : (st.threads t).pc <;> simp only [fStep, hpc]
+  all_goals (try split)
+  all_goals (try split)
+  all_goals (simp_all [FPc.path, FPc.added, FPc.absent])
 
 theorem fInv_run (ex : Nat → Bool) (base : List Nat) (sched : List Tid) :
-    ∀ st, FInv ex base st → FInv ex base (fRun ex st sched) := by
+    ∀ st, FInv base st → FInv base (fRun ex st sched) := by
   induction sched with
   | nil => intro st h; exact h
   | cons t ts ih => intro st h; exact ih _ (fInv_step ex base st t h)
+
+theorem fInv_runW (base : List Nat) (sched : List ((Nat → Bool) × Tid)) :
+    ∀ st, FInv base st → FInv base (fRunW st sched) := by
+  induction sched with
+  | nil => intro st h; exact h
+  | cons x ts ih => intro st h; exact ih _ (fInv_step x.1 base st x.2 h)
 
 end Pypyr.CacheTS
